@@ -89,7 +89,11 @@ def first_diff(a, b, path="stylesheet"):
 
 def _short(x):
     if isinstance(x, tuple) and x and x[0] == "decl":
-        return "declaration %s: %s%s" % (x[1], x[2] if isinstance(x[2], str) else T.serialize_value(x[2]), " !important" if x[3] else "")
+        if x[2] and x[2][0] == "<MASKED VALUE>":
+            val = "<adjusted value>" + "".join(" /*%s*/" % t[1] for t in x[2][1:])
+        else:
+            val = x[2] if isinstance(x[2], str) else T.serialize_value(x[2])
+        return "declaration %s: %s%s" % (x[1], val, " !important" if x[3] else "")
     if isinstance(x, tuple) and x and x[0] == "comment":
         return "comment /*%s*/" % x[1]
     if isinstance(x, tuple) and x and x[0] == "rule":
